@@ -380,6 +380,7 @@ def fix_payload(entry, payload):
 
 
 PROBE_SECONDS = float(os.environ.get("VERIF_C04_PROBE_SECONDS", "6"))
+_confirmed_hang = [False]
 
 
 def run_probe(entry, payload, seconds=None):
@@ -388,9 +389,12 @@ def run_probe(entry, payload, seconds=None):
     if seconds is None:
         seconds = PROBE_SECONDS
     val, exc, hung = guarded(lambda: ENTRIES[entry](payload), seconds)
-    if hung:
-        # confirm with a five times longer period before calling it a hang (loaded machine)
+    if hung and not _confirmed_hang[0]:
+        # confirm with a five times longer period before calling it a hang (loaded machine);
+        # once one hang is confirmed in this process the short period is trusted
         val, exc, hung = guarded(lambda: ENTRIES[entry](payload), seconds * 5)
+        if hung:
+            _confirmed_hang[0] = True
     if hung:
         return "hang", {"kind": "hang", "entry": entry, "what": f"{entry}: no result within {seconds}s, nor within {seconds * 5}s", "probe": [entry, payload]}
     if exc is not None:
@@ -924,6 +928,20 @@ def gen_probe(rng, s, entry=None):
         if mut:
             w = mutate_bytes(rng, w, spans)
         return entry, [w, rng.randrange(1024)]
+    if entry == "name_wire" and rng.random() < 0.3:
+        # a soup of pointers and short labels: chains, cycles, forward and self references
+        cells = []
+        n = rng.randint(2, 8)
+        for _ in range(n):
+            r = rng.random()
+            if r < 0.6:
+                cells.append(bytes([0xC0, 2 * rng.randrange(n)]))
+            elif r < 0.8:
+                cells.append(bytes([1, rng.randrange(256)]))
+            else:
+                cells.append(b"\0" + bytes([rng.randrange(256)]))
+        w = b"".join(cells)
+        return entry, [w, 2 * rng.randrange(n)]
     if entry == "name_wire":
         w = rng.choice(s.msg_wires) if s.msg_wires and rng.random() < 0.5 else rng.choice(s.rdatas)[3]
         if mut:
@@ -1081,7 +1099,52 @@ def sweep_probes(s, what):
             yield "zone_text", ["x " + tn + " " + text, 1, 0, 0]
             yield "read_rrsets", ["x 300 " + tn + " " + text, 0, 1, 0]
             yield "msg_text", ["id 1\nopcode QUERY\nflags QR\n;QUESTION\nx.example. IN " + tn + "\n;ANSWER\nx.example. 300 IN " + tn + " " + text + "\n", 1, 1, 0]
+        # $GENERATE: every range string over a small alphabet, every token of the directive lines
+        import itertools
+
+        zhead = "$ORIGIN example.\n$TTL 300\n@ IN SOA ns h 1 2 3 4 5\n@ NS ns\n"
+        for ln in range(0, 6):
+            for tup in itertools.product(["0", "1", "3", "-", "/", "\u0660"], repeat=ln):
+                r = "".join(tup)
+                yield "zone_text", [zhead + "$GENERATE " + r + " host$ A 10.0.1.$\n", 1, 1, 0]
+        small = ["", "0", "-1", "1-", "/", "1/2", "1-2/0", "$", "${", "${0,0,z}", "${-1,2,x}", "${99999999999,1,d}", "\\", '"', "(", "1h", "IN", "CH", "A", "BOGUS",
+                 "TYPE65536", "CLASS65536", "4294967296", "\u0663", "x" * 64]
+        for line in GENERATE_LINES + DIRECTIVE_LINES:
+            toks = _tok_re.findall(line)
+            for i, tk in enumerate(toks):
+                if not tk.strip():
+                    continue
+                for rep in small:
+                    t2 = "".join(toks[:i] + [rep] + toks[i + 1:])
+                    yield "zone_text", [zhead + t2 + "\n", 1, 1, 0]
+                    yield "zone_text", [t2 + "\nx A 10.0.0.1\n", 0, 0, 0]
+                    yield "read_rrsets", [t2, 4, 1, 0]
+        # every line of tests/example*: each of its first six tokens replaced
+        for line in s.zone_lines:
+            toks = _tok_re.findall(line)
+            idx = [i for i, t in enumerate(toks) if t.strip()][:6]
+            for i in idx:
+                for rep in ("", "0", "4294967296", '"', "\\", "(", "$", "CH", "\u0663", "x" * 64):
+                    t2 = "".join(toks[:i] + [rep] + toks[i + 1:])
+                    yield "zone_text", ["$ORIGIN example.\n$TTL 300\n" + t2 + "\n", 1, 1, 0]
+            yield "read_rrsets", [line, 4, 1, 1]
     elif what == "wire":
+        # chains of compression pointers: every arrangement of 2 and 3 pointer / label cells
+        cells = [b"\xc0\x00", b"\xc0\x02", b"\xc0\x04", b"\xc0\x06", b"\x01a", b"\x00\x00", b"\xc1\x00"]
+        import itertools as _it
+
+        for k in (2, 3, 4):
+            for combo in _it.product(cells, repeat=k):
+                w = b"".join(combo)
+                for off in range(0, len(w), 2):
+                    yield "name_wire", [w, off]
+        for combo in _it.product(cells[:5], repeat=3):
+            # the same cells as the name of an NS record in a message whose header is made of them
+            w = b"".join(combo)
+            hdr = (w + b"\0" * 12)[:4] + struct.pack("!HHHH", 1, 0, 0, 0)
+            for tgt in (0, 2, 12):
+                yield "msg_wire", [hdr + bytes([0xC0, tgt]) + b"\x00\x02\x00\x01", 0]
+                yield "msg_wire", [hdr + bytes([0xC0, tgt]) + b"\x00\x02\x00\x01", 8]
         for rdclass, rdtype, _, w in s.rdatas:
             for n in range(len(w) + 1):
                 yield "rdata_wire", [rdclass, rdtype, w[:n], 0, n, 0]
@@ -1189,6 +1252,8 @@ def check_api_discipline(limit=None):
     bad = []
     n = 0
     for e, p in sweep_probes(s, "wire"):
+        if e != "rdata_wire":
+            continue
         if limit is not None and n >= limit:
             break
         rdclass, rdtype, wire, cur, rdlen, oi = p
